@@ -58,7 +58,7 @@ def call_taus(t, betas, log_e_nu):
 def build_taus(v):
     from nuspacesim.simulation.taus.taus import Taus
 
-    t = object.__new__(Taus)
+    t = harness.partial(Taus)
     t.config = types.SimpleNamespace(simulation=types.SimpleNamespace(tau_shower=types.SimpleNamespace(etau_frac=v["frac"])))
     t._pexit, t._etau = v["pexit"], v["E"]
     if not isinstance(v["E"], A):
@@ -103,7 +103,7 @@ def build_altdec(explicit_u):
     def b(v):
         from nuspacesim.simulation.eas_optical.eas import EAS
 
-        eas = object.__new__(EAS)
+        eas = harness.partial(EAS)
         return fn, [eas, v["beta"], v["bt"], v["g"], v["u"]], {}
 
     return b
